@@ -47,6 +47,25 @@ fn main() {
     let plan: Value = std::env::var("VP_CMDPLAN").ok().and_then(|p| std::fs::read(p).ok()).and_then(|b| serde_json::from_slice(&b).ok()).unwrap_or(json!({}));
     let fail = plan.get("fail_seq").and_then(Value::as_u64) == Some(seq as u64)
         || plan.get("fail_kinds").and_then(Value::as_array).is_some_and(|k| k.iter().any(|x| x.as_str() == Some(kind.as_str())));
+    // natural consequence of an earlier scripted failure: a container whose `docker run` failed does not exist, so looking at its
+    // logs, its ports or executing something in it fails too (removing it stays harmless)
+    let mut no_such_container = false;
+    if matches!(kind.as_str(), "docker logs" | "docker exec" | "docker port") {
+        if let Some(name) = argv.iter().skip(1).find(|a| !a.starts_with('-')) {
+            if let Ok(text) = std::fs::read_to_string(&log) {
+                for line in text.lines() {
+                    if let Ok(e) = serde_json::from_str::<Value>(line) {
+                        let is_failed_run = e["kind"] == "docker run" && e["failed"] == true;
+                        let names_it = e["argv"].as_array().is_some_and(|a| a.windows(2).any(|w| w[0] == "--name" && w[1].as_str() == Some(name.as_str())));
+                        if is_failed_run && names_it {
+                            no_such_container = true;
+                        }
+                    }
+                }
+            }
+        }
+    }
+    entry["no_such_container"] = json!(no_such_container);
     entry["failed"] = json!(fail);
     let mut line = serde_json::to_vec(&entry).unwrap();
     line.push(b'\n');
@@ -56,6 +75,10 @@ fn main() {
         if let Ok(dir) = std::env::var("VP_STANDIN_BIN") {
             let _ = std::fs::remove_file(Path::new(&dir).join(r.get("prog").and_then(Value::as_str).unwrap_or("pack")));
         }
+    }
+    if no_such_container && !fail {
+        eprintln!("Error response from daemon: No such container");
+        std::process::exit(1);
     }
     if fail {
         if plan.get("fail_output").and_then(Value::as_str) == Some("big-unicode") {
